@@ -126,10 +126,10 @@ Proof. intros [a|] [b|]; simpl; intro H; try discriminate; [apply N.eqb_eq in H;
 Definition item_pair_ok (lk : lookups) (x y : item) : bool :=
   implb (N.eqb (ia x) (ia y))
     ((match ih x, ih y with
-      | Some (_, b), Some (_, b') =>
+      | Some (nm, b), Some (nm', b') =>
           implb (proto_eqb (bproto b) (bproto b'))
                 (opt_beq str_eqb (bident b) (bident b') && N.eqb (bport b) (bport b') && binds_ok (bprops b) (bprops b'))
-          && Bool.eqb (ideep x) (ideep y) && N.eqb (imodel x) (imodel y)
+          && Bool.eqb (ideep x) (ideep y) && N.eqb (imodel x) (imodel y) && opt_beq str_eqb nm nm'
       | _, _ => true
       end) &&
      implb (str_eqb (ity x) (ity y)) (dict_exact (iprops x) (iprops y)) &&
@@ -142,7 +142,7 @@ Proof.
   - intros x y nm b nm' b' I I' A Hx Hy Pr. specialize (P x y I I'). unfold item_pair_ok in P.
     rewrite A, N.eqb_refl, Hx, Hy in P. simpl in P.
     apply andb_true_iff in P as [P _]. apply andb_true_iff in P as [P _].
-    apply andb_true_iff in P as [P _]. apply andb_true_iff in P as [P _].
+    apply andb_true_iff in P as [P _]. apply andb_true_iff in P as [P _]. apply andb_true_iff in P as [P _].
     assert (E : proto_eqb (bproto b) (bproto b') = true) by now apply proto_eqb_eq.
     rewrite E in P. simpl in P.
     apply andb_true_iff in P as [P P3]. apply andb_true_iff in P as [P1 P2].
@@ -154,8 +154,8 @@ Proof.
   - intros x y nm b nm' b' I I' A Hx Hy. specialize (P x y I I'). unfold item_pair_ok in P.
     rewrite A, N.eqb_refl, Hx, Hy in P. simpl in P.
     apply andb_true_iff in P as [P _]. apply andb_true_iff in P as [P _].
-    apply andb_true_iff in P as [P P2]. apply andb_true_iff in P as [_ P1].
-    split; [now apply eqb_prop|now apply N.eqb_eq].
+    apply andb_true_iff in P as [P Pn]. apply andb_true_iff in P as [P P2]. apply andb_true_iff in P as [_ P1].
+    split; [now apply eqb_prop|]. split; [now apply N.eqb_eq|]. now apply opt_str_beq_eq.
   - intros x y m m' I I' A Hx Hy. specialize (P x y I I'). unfold item_pair_ok in P.
     rewrite A, N.eqb_refl in P. simpl in P. apply andb_true_iff in P as [_ P].
     rewrite Hx, Hy in P. now apply N.eqb_eq.
